@@ -614,3 +614,71 @@ def _(self: SurveyK, list_name: str, itemset: ItemsetK) -> Inst:
     ensures(forall(0, len(O), lambda k: result.instance.kids[0].kids[k].tagName == "item"
                    and len(keys(result.instance.kids[0].kids[k].attrs)) == 0
                    and ChoiceOk(result.instance.kids[0].kids[k].kids, list_name, itemset.requires_itext, k, O[k])))
+
+
+# ---------------------------------------------------------------- external data sources: conventional URIs (C09)
+
+ParentK = Obj("Section", name=str, type=str)
+ExtK = Obj("ExternalInstance", name=str, type=str, parent=ParentK)
+FileSelK = Obj("MultipleChoiceQuestion", name=str, type=str, itemset=Opt[str], parent=ParentK)
+
+
+@spec
+def SrcInstanceOk(n: XNode, ident: str, src: str) -> bool:
+    """<instance id=ident src=src/> and nothing else."""
+    return (n.nodeType == 1 and n.tagName == "instance" and len(n.kids) == 0 and len(keys(n.attrs)) == 2
+            and n.attrs["id"] == ident and n.attrs["src"] == src)
+
+
+@contract("Survey._generate_external_instances")
+def _(element: ExtK) -> Inst:
+    properties("C09")
+    no_native("needs survey-element objects: exercised through the e2e oracle and the runtime monitor")
+    # type invariant: the two external-instance row types of the type table
+    requires(element.type == "csv-external" or element.type == "xml-external")
+    # C09: a csv-external / xml-external row is declared under its own name with the conventional URI
+    ensures(result.type == "external" and result.name == element.name)
+    ensures(implies(element.type == "csv-external", result.src == "jr://file-csv/" + element.name + ".csv"))
+    ensures(implies(element.type == "xml-external", result.src == "jr://file/" + element.name + ".xml"))
+    ensures(SrcInstanceOk(result.instance, element.name, some(result.src)))
+
+
+@contract("Survey._get_last_saved_instance")
+def _() -> Inst:
+    properties("C09")
+    no_native("no arguments: exercised through the e2e oracle and the runtime monitor")
+    ensures(result.type == "instance" and result.name == "__last-saved" and result.src == "jr://instance/last-saved"
+            and result.context is None)
+    ensures(SrcInstanceOk(result.instance, "__last-saved", "jr://instance/last-saved"))
+
+
+@spec
+def SplitExt(p: str) -> Tuple[str, str]:
+    """os.path.splitext(p): (root, extension)."""
+    uninterpreted()
+
+
+@contract("splitext", module="posixpath")
+def _(p: str) -> Tuple[str, str]:
+    trusted("os.path.splitext (stdlib): the two parts concatenate to the argument; the extension is empty or a dot "
+            "followed by characters other than '.' and '/'")
+    ensures(result == SplitExt(p))
+    ensures(result[0] + result[1] == p)
+    ensures(result[1] == "" or (result[1].startswith(".") and "/" not in result[1] and "." not in result[1][1:]))
+
+
+@contract("Survey._generate_from_file_instances")
+def _(element: FileSelK) -> Opt[Inst]:
+    properties("C09")
+    no_native("needs survey-element objects: exercised through the e2e oracle and the runtime monitor")
+    it = some(element.itemset)
+    root = SplitExt(it)[0]
+    ext = SplitExt(it)[1]
+    known = ext == ".csv" or ext == ".xml" or ext == ".geojson"
+    # C09: a select from a csv / xml / geojson file is declared under the file's base name with the conventional URI;
+    # any other itemset (a choice list, a reference) declares no file instance
+    ensures((result is None) == (not bool(element.itemset) or not known))
+    ensures(implies(result is not None, some(result).type == "file" and some(result).name == root))
+    ensures(implies(result is not None and ext == ".csv", some(result).src == "jr://file-csv/" + it))
+    ensures(implies(result is not None and ext != ".csv", some(result).src == "jr://file/" + it))
+    ensures(implies(result is not None, SrcInstanceOk(some(result).instance, root, some(some(result).src))))
